@@ -339,7 +339,7 @@ pub fn worker_main(prop: &PropDef, tier: Tier, seed: u64, shard: u64, nshards: u
                     cfg.cases = my_cases as u32;
                     cfg.failure_persistence = None;
                     cfg.max_shrink_iters = 4000;
-                    cfg.max_shrink_time = 0;
+                    cfg.max_shrink_time = 20_000; // ms; the failure is already established, only minimisation is cut short
                     cfg.verbose = 0;
                     cfg.rng_algorithm = RngAlgorithm::ChaCha;
                     cfg.max_global_rejects = 1;
@@ -590,7 +590,7 @@ pub fn parent_main(prop: &PropDef, tier: Tier, seed: u64) -> i32 {
                             let _ = chh.kill();
                         }
                         if prop.id == "C03" {
-                            violations.push(json!({"sub": v["sub"], "sig": "hang", "msg": "the case does not terminate (20 s in the worker, 60 s alone in a fresh process)", "input": v["input"], "render": "", "smallbuf": small}));
+                            violations.push(json!({"sub": v["sub"], "sig": "hang", "msg": "the case does not terminate (stalled for 30 s in the worker, then 60 s alone in a fresh process)", "input": v["input"], "render": "", "smallbuf": small}));
                         } else {
                             inconclusive = true;
                             notes.push(format!("worker {} stalled on a case (replay {}); inconclusive", shard, rp.display()));
